@@ -83,7 +83,7 @@ type client struct {
 
 func (c client) coq() string {
 	a := map[oidc.AuthMethod]string{oidc.AuthMethodBasic: "ABasic", oidc.AuthMethodPost: "APost", oidc.AuthMethodNone: "ANone"}[c.auth]
-	return emit.Ctor("mkClient", emit.Str(c.id), emit.Str(c.secret), emit.Bool(c.web), a, emit.Bool(c.dev), emit.Bool(c.refr))
+	return emit.Ctor("mkClient", emit.Str(c.id), emit.Str(c.secret), a, emit.Bool(c.dev), emit.Bool(c.refr))
 }
 
 func (c client) canonical() creds {
@@ -211,6 +211,7 @@ type hist struct {
 	obs      []string
 	human    []string
 	muts     map[string]bool
+	f21      bool
 	t0       time.Time
 }
 
@@ -366,9 +367,6 @@ func (h *hist) scopes() []string {
 	return out
 }
 
-// devClients: indices of clients allowed to start a flow in generated histories.
-// A client without the device grant starts one only on the Provider router
-// (on the Legacy router that is defect F21, owned by C05, and left out).
 func (h *hist) pickClient() int { return h.r.IntN(len(h.clients)) }
 
 func (h *hist) mut(name string) { h.muts[name] = true }
@@ -422,8 +420,8 @@ func (h *hist) startFlow() {
 	for j, o := range h.clients {
 		if o.id == claimed {
 			i = j
-			if !o.dev {
-				router = opfix.Provider // F21 input class (Legacy router, client without the grant) left out
+			if !o.dev && router == opfix.Legacy {
+				h.f21 = true // former defect F21 (C05): Legacy router, client without the device grant
 			}
 		}
 	}
@@ -569,6 +567,9 @@ func historyCase(r drv.Rand, w *emit.Writer, extra map[string]int) {
 	if h.uc.f17() {
 		tags = append(tags, "f17=1")
 	}
+	if h.f21 {
+		tags = append(tags, "f21=1")
+	}
 	for m := range h.muts {
 		w.Count("mut=" + m)
 	}
@@ -603,7 +604,7 @@ func main() {
 	err := w.Close(emit.Meta{Property: "C16", Tier: cfg.Tier, Seed: cfg.Seed,
 		Rule: "2 of 3 cases: a history of 6-15 device_authorization/approve/deny/poll operations by 2-3 clients (confidential web, public native, optionally a post/JWT/spa/no-device-grant client) on both routers over one refstore: flow-first (start a flow with canonical credentials, poll, approve, poll) with mutations (foreign client, wrong/missing/post credentials, unknown code, user code as device code, storage deadline/error, bogus user codes, expired devices via negative lifetime, exhausted random source); 1 of 3 cases: op.NewUserCode directly with crypto/rand.Reader pinned (alphabets incl. non-ASCII, 1, 256 and 300 runes, dash 0 / 1 / >= n, F17 classes). Non-trivial = a history in which a device code was issued, or a produced user code; distinct = distinct (input hash, set of answer kinds).",
 		Extra: map[string]any{"clock_ambiguous": extra["clock_ambiguous"]},
-		Notes: []string{"F21 input class (client without the device grant starting a flow on the Legacy router) is not generated"},
+		Notes: []string{"f17=1: user-code configurations that made op.NewUserCode panic before fix F17; f21=1: a client without the device grant starts a flow on the Legacy router (former defect F21, fixed by C05)"},
 	})
 	if err != nil {
 		fmt.Fprintln(os.Stderr, err)
